@@ -319,6 +319,11 @@ def run(prop, replay_file=None):
         nsess = validate_session_traces(rep, prop, w, 40 if t == "quick" else 600, sd, feats_all)
         nvalid += nsess
         rep.cov["session_traces_validated"] = nsess
+        # 6. the repository's OWN end-to-end tests as trace sources (structural clauses: their float prices and
+        #    10^6 cash are not mil-precise)
+        nrepo = validate_repo_e2e(rep, prop, w)
+        nvalid += nrepo
+        rep.cov["repo_e2e_traces_validated"] = nrepo
         desc, pred = NONTRIVIAL[prop]
         rep.cov["evaluations"] = ncalls + ncover + rep.cov.get("trace_events", 0) + rep.cov.get("position_direct", {}).get("steps", 0)
         rep.cov["distinct_nontrivial"] = sum(1 for f in feats_all.values() if pred(f))
@@ -413,12 +418,13 @@ def transition_cover(rep, prop, w, feats_all, depth=3):
 
 
 # ---------------------------------------------------------------------------------------------
-def validate_traces(w, traces, timeout=3000, assets=("A", "B", "C")):
+def validate_traces(w, traces, timeout=3000, assets=("A", "B", "C"), structural=False):
     """Write a batch and let TLC validate it.  Returns {trace id: set((step, prop, clause))}."""
     path = os.path.join(w, "batch.json")
     broker_random.write_batch(traces, path)
     with open(os.path.join(w, "BrokerTrace.cfg"), "w") as fh:
-        fh.write('SPECIFICATION TraceSpec\nCONSTANTS\n  Assets = {%s}\n  Bug = "none"\nCHECK_DEADLOCK FALSE\n' % ", ".join('"%s"' % a for a in assets))
+        fh.write('SPECIFICATION TraceSpec\nCONSTANTS\n  Assets = {%s}\n  Bug = "none"\n  Structural = %s\nCHECK_DEADLOCK FALSE\n'
+                 % (", ".join('"%s"' % a for a in assets), "TRUE" if structural else "FALSE"))
     r = tlc.run(w, "BrokerTrace", "BrokerTrace.cfg", workers=1, env={"QSV_TRACE": path}, timeout=timeout)
     os.remove(path)
     if r.violated == "evaluation-error" and "Overflow when computing" in r.out:
@@ -587,6 +593,35 @@ def position_direct_conformance(rep, w, t, sd):
                 break
     shutil.rmtree(simdir, ignore_errors=True)
     rep.cov["position_direct"] = dict(behaviours=nb, steps=ns)
+
+
+def validate_repo_e2e(rep, prop, w):
+    from . import session_rig as sr
+    try:
+        recs = sr.record_repo_e2e_traces()
+    except Exception as e:
+        rep.warnings.append("the repository's e2e tests could not be recorded: %s: %s" % (type(e).__name__, e))
+        return 0
+    traces = [tr for _name, _ok, tr in recs if broker_random.max_abs_int(tr) < 2 ** 31 - 1]
+    names = dict((tr["id"], name) for name, _ok, tr in recs)
+    if not traces:
+        return 0
+    try:
+        verdicts, r = validate_traces(w, traces, assets=("EQ:ABC", "EQ:DEF", "EQ:GHI"), structural=True)
+    except (tlc.TLCError, tlc.Overflow) as e:
+        rep.warnings.append("the repository's e2e traces could not be validated (%s)" % str(e)[-300:])
+        return 0
+    rep.cov["states"] += r.distinct
+    rep.cov["transitions"] += r.generated
+    for tr in traces:
+        rep.cov["trace_events"] = rep.cov.get("trace_events", 0) + len(tr["ev"])
+        for (step, p, clause) in sorted(verdicts[tr["id"]]):
+            tag = "%s:%s" % (p, clause)
+            _route(rep, prop, tag, "broker calls of the repository's own test %s rejected by BrokerTrace (structural) at event %d: clause %s; event: %s"
+                   % (names[tr["id"]], step, tag, json.dumps(tr["ev"][step - 1])[:600]), step, dict(kind="repo-e2e", test=names[tr["id"]]),
+                   [e["call"] for e in tr["ev"][:step]])
+    rep.cov["repo_e2e_tests"] = sorted(names.values())
+    return len(traces)
 
 
 def _session_trace_job(job):
